@@ -58,7 +58,7 @@ Theorem C01_modular_inverse_exact : Inv_exact.           Proof. exact inv_exact.
 Print Assumptions C01_modular_inverse_exact.
 Theorem C01_roots_exact : Roots_exact.                   Proof. exact roots_exact. Qed.
 Print Assumptions C01_roots_exact.
-(* operations that are loops of givaro's own: logp (2 <= p <= a: p^r <= a < p^(r+1)), Integer(vect_t) = the base-2^64 value of the limbs,
+(* operations that are loops of givaro's own: logp (2 <= p, 1 <= a: p^r <= a < p^(r+1); 0 for a < p), Integer(vect_t) = the base-2^64 value of the limbs,
    operator vect_t followed by Integer(vect_t) = |x| *)
 Theorem C01_logp_and_limb_vector_exact : Loops_exact.    Proof. exact loops_exact. Qed.
 Print Assumptions C01_logp_and_limb_vector_exact.
